@@ -6,8 +6,13 @@ impl  = the real library: ELFFile over a synthesized minimal ELF image ->
         fields + mnmemonic_array();  EHABIBytecodeDecoder;  arm_expand_prel31.
 model = extracted Model/C20Attr.v, Model/C20Ehabi.v;  spec = extracted Spec/C20Attr.v, Spec/C20Ehabi.v
         (the section / table bytes are produced by the Coq encoders; the harness only places them
-        in an image at chosen offsets between non-zero filler)."""
-import io, itertools, struct
+        in an image at chosen offsets between non-zero filler).
+histories (kinds attr_hist, eh_hist): ONE section object / ONE EHABIInfo object and the objects it hands
+        out are put through a sequence of calls (walks started, advanced, abandoned, limited, nested;
+        num_* / list properties / fresh walks in between; get_entry / num_entry in any order, decoder
+        objects reused); every answer is compared with Model/C20Hist.v (what the objects keep between
+        calls) and with Spec/C20Hist.v (the stateless reference)."""
+import gc, io, itertools, struct
 from tools.lib.framework import impl_call
 
 CLAIMED = True
@@ -22,6 +27,10 @@ LEVEL = {'text': 'Machine-checked theorems: round trip of the build-attributes r
                  'get_entry classifies every index/table entry kind and unpacks the byte-code exactly; the byte-code '
                  'disassembler equals the EHABI 9.3 decision list for all instruction sequences of any length (first-byte '
                  'dispatch of the regenerated ring swept over all 256 bytes, all operand bytes, uleb128 operands of any length). '
+                 'Objects under ANY history of calls (walks started / advanced / abandoned / limited / nested on one '
+                 'section, subsection or sub-subsection object, num_* and list properties in between; num_entry / get_entry '
+                 'in any order, decoder objects reused): every answer equals the stateless decoding (simulation proof over '
+                 'fold of histories; memo fields are model state with an invariant). '
                  'Models are transliterations pinned to the code by differential correspondence on Coq-encoded inputs.',
          'design_ref': '4.20', 'technique': 'Coq proof (induction over section structure, bit arithmetic, finite sweeps by vm_compute) '
                                              '+ Gen tables from live modules + extracted-model correspondence',
@@ -34,8 +43,14 @@ RULE = ('cases: attribute sections of 1..6 vendor subsections x 0..5 file/sectio
         'eagerly (.subsections/.subsubsections) and nested (generators drained inside one another); byte-mutated sections '
         '(out of domain, model vs impl only); prel31 over all sign/size classes incl. bit26!=bit30; index images with every '
         'entry kind, tables before and after the index; byte-code: every first byte x every operand byte, random instruction '
-        'lists with multi-byte uleb128 operands, raw byte strings. distinct = hash(kind, abstract); non-trivial = >=2 '
-        'subsections or sub-subsections / multi-byte uleb / large displacement / >=2 instructions')
+        'lists with multi-byte uleb128 operands, raw byte strings. Histories: on sections of 1..4 subsections, call '
+        'sequences of 3..16 operations over the section object and every object it hands out (start a walk with or '
+        'without vendor/scope/tag limit, next, close, drop, num_*, list property, complete fresh walk, unrelated seek), '
+        'object references drawn by simulating the reference; templates "abandon after k items then query", "two '
+        'walks interleaved", "walk nested in a walk in flight"; on exception indexes of 1..6 entries, sequences of '
+        'num_entry / get_entry(n) (in and out of range) / field re-reads / mnmemonic_array / decoder objects built, '
+        'decoded again and read again. distinct = hash(kind, abstract); non-trivial = >=2 '
+        'subsections or sub-subsections / multi-byte uleb / large displacement / >=2 instructions / history of >=2 calls')
 
 ARM_ULEB = [6, 7, 8, 9, 10, 11, 12, 13, 14, 15, 16, 17, 18, 19, 20, 21, 22, 23, 24, 25, 26, 27, 28, 29, 30, 31,
             34, 36, 38, 42, 44, 46, 48, 50, 52, 64, 66, 68, 70, 72, 74, 76]
@@ -282,10 +297,233 @@ def rand_eh_image(rng, kinds):
     return [le, exidx_off, [a for a, _ in ents], total]
 
 
+# ------------------------------------------------------------------ histories
+SCOPE_NAME = {1: b'TAG_FILE', 2: b'TAG_SECTION', 3: b'TAG_SYMBOL'}
+ATTR_FILTERS = {'arm': [b'TAG_CPU_ARCH', b'TAG_CPU_NAME', b'TAG_ABI_VFP_ARGS', b'TAG_COMPATIBILITY',
+                        b'TAG_ALSO_COMPATIBLE_WITH', b'TAG_CONFORMANCE', b'TAG_FILE'],
+                'riscv': [b'TAG_ARCH', b'TAG_STACK_ALIGN', b'TAG_UNALIGNED_ACCESS', b'TAG_PRIV_SPEC', b'TAG_FILE']}
+
+
+class AttrHistSim:
+    """Bookkeeping of the REFERENCE (Spec/C20Hist.v) as far as it is needed to draw object and generator
+    numbers that exist: which objects a call registers.  Answers are never taken from here."""
+    def __init__(self, fl, sec):
+        self.fl, self.sec = fl, sec
+        self.objs = [('sec',)]
+        self.gens = []           # [owner, filter, pos, done, dropped]
+
+    def level(self, o):
+        return {'sec': 0, 'subsec': 1, 'subsub': 2}[self.objs[o][0]]
+
+    def items(self, owner):
+        """(child object or None, key) of every item of a complete walk"""
+        if owner[0] == 'sec':
+            return [(('subsec', i), s[0]) for i, s in enumerate(self.sec)]
+        if owner[0] == 'subsec':
+            i = owner[1]
+            return [(('subsub', i, j), SCOPE_NAME[ss[0]]) for j, ss in enumerate(self.sec[i][1])]
+        return [(None, None) for _ in self.sec[owner[1]][1][owner[2]][4]]     # attributes: no objects, key not needed
+
+    def apply(self, op):
+        k = op[0]
+        if k == 'start':
+            self.gens.append([self.objs[op[1]], op[2], 0, False, False])
+        elif k == 'next':
+            g = self.gens[op[1]]
+            if not g[3]:
+                its = self.items(g[0])
+                p = g[2]
+                while p < len(its) and not (g[1] is None or its[p][1] == g[1] or its[p][1] is None):
+                    p += 1
+                if p < len(its):
+                    g[2] = p + 1
+                    if its[p][0] is not None:
+                        self.objs.append(its[p][0])
+                else:
+                    g[3] = True
+        elif k in ('close', 'drop'):
+            self.gens[op[1]][3] = True
+            if k == 'drop':
+                self.gens[op[1]][4] = True
+        elif k in ('list', 'iter'):
+            f = op[2] if k == 'iter' else None
+            for child, key in self.items(self.objs[op[1]]):
+                if child is not None and (f is None or key == f):
+                    self.objs.append(child)
+
+    def pick_obj(self, rng):
+        n = len(self.objs)
+        r = rng.random()
+        if r < 0.25:
+            return 0
+        if r < 0.6:
+            return rng.randrange(max(0, n - 3), n)
+        return rng.randrange(n)
+
+    def pick_filter(self, rng, o):
+        if rng.random() < 0.55:
+            return None
+        lvl = self.level(o)
+        if lvl == 0:
+            if self.sec and rng.random() < 0.85:
+                return rng.choice(self.sec)[0]
+            return b'no such vendor'
+        if lvl == 1:
+            return rng.choice(list(SCOPE_NAME.values()))
+        return rng.choice(ATTR_FILTERS[self.fl])
+
+    def live_gens(self):
+        return [i for i, g in enumerate(self.gens) if not g[4]]
+
+
+DISTURB = [0, 1, 17, 52, 64, 100, 1000, 2 ** 20]
+
+
+def rand_attr_hist(rng, fl, sec, n):
+    sim = AttrHistSim(fl, sec)
+    hist = []
+
+    def emit(op):
+        hist.append(op)
+        sim.apply(op)
+
+    def query(o):
+        r = rng.random()
+        if r < 0.4:
+            emit(['num', o])
+        elif r < 0.7:
+            emit(['list', o])
+        else:
+            emit(['iter', o, sim.pick_filter(rng, o)])
+    t = rng.random()
+    if t < 0.30:
+        # a walk abandoned after k items (closed, dropped, or just left suspended), then the object is asked again
+        o = sim.pick_obj(rng)
+        emit(['start', o, sim.pick_filter(rng, o)])
+        g = len(sim.gens) - 1
+        for _ in range(rng.choice([0, 1, 1, 1, 2, 3])):
+            emit(['next', g])
+        r = rng.random()
+        if r < 0.35:
+            emit(['close', g])
+        elif r < 0.7:
+            emit(['drop', g])
+        query(o)
+        if rng.random() < 0.5:
+            query(o)
+    elif t < 0.45:
+        # two walks over the same object advanced alternately
+        o = sim.pick_obj(rng)
+        emit(['start', o, sim.pick_filter(rng, o)])
+        emit(['start', o, sim.pick_filter(rng, o)])
+        g = len(sim.gens) - 2
+        for _ in range(rng.randint(2, 6)):
+            emit(['next', g + rng.randint(0, 1)])
+        query(o)
+    elif t < 0.60:
+        # a walk over an object yielded by a walk that is still in flight, questions to the outer object in between
+        emit(['start', 0, sim.pick_filter(rng, 0)])
+        emit(['next', 0])
+        if len(sim.objs) > 1:
+            inner = len(sim.objs) - 1
+            emit(['start', inner, sim.pick_filter(rng, inner)])
+            emit(['next', 1])
+            query(0)
+            emit(['next', 1])
+            emit(['next', 0])
+            query(inner)
+    elif t < 0.80:
+        # a walk over the attributes of a sub-subsection in flight while other objects are asked
+        emit(['list', 0])
+        subsecs = [k for k, o in enumerate(sim.objs) if o[0] == 'subsec' and sim.sec[o[1]][1]]
+        if subsecs:
+            emit(['list', rng.choice(subsecs)])
+            subsubs = [k for k, o in enumerate(sim.objs) if o[0] == 'subsub']
+            rich = [k for k in subsubs if len(sim.sec[sim.objs[k][1]][1][sim.objs[k][2]][4]) >= 2]
+            o = rng.choice(rich or subsubs)
+            emit(['start', o, sim.pick_filter(rng, o) if rng.random() < 0.3 else None])
+            g = len(sim.gens) - 1
+            emit(['next', g])
+            for _ in range(rng.choice([1, 1, 2])):
+                r = rng.random()
+                if r < 0.35:
+                    query(sim.pick_obj(rng))
+                elif r < 0.6:
+                    emit(['start', o, None])
+                    emit(['next', len(sim.gens) - 1])
+                elif r < 0.8:
+                    other = rng.choice(subsubs)
+                    emit(['start', other, None])
+                    emit(['next', len(sim.gens) - 1])
+                else:
+                    emit(['disturb', rng.choice(DISTURB)])
+            emit(['next', g])
+            emit(['next', g])
+            if rng.random() < 0.5:
+                query(o)
+    while len(hist) < n:
+        r = rng.random()
+        live = sim.live_gens()
+        if r < 0.20 or (not live and r < 0.63):
+            o = sim.pick_obj(rng)
+            emit(['start', o, sim.pick_filter(rng, o)])
+        elif r < 0.55:
+            emit(['next', rng.choice(live[-4:]) if rng.random() < 0.7 else rng.choice(live)])
+        elif r < 0.63:
+            emit([rng.choice(['close', 'drop']), rng.choice(live)])
+        elif r < 0.95:
+            query(sim.pick_obj(rng))
+        else:
+            emit(['disturb', rng.choice(DISTURB)])
+    return hist
+
+
+HAS_BYTECODE = ('inline', 't0', 't12')
+
+
+def rand_eh_hist(rng, kinds, n):
+    nent = len(kinds)
+    entries, decs, hist = [], 0, []
+    while len(hist) < n:
+        r = rng.random()
+        if r < 0.12:
+            hist.append(['num'])
+        elif r < 0.42 or not entries:
+            k = rng.randrange(nent) if rng.random() < 0.9 else nent + rng.choice([0, 1, 7])
+            hist.append(['get', k])
+            if k < nent:
+                entries.append(kinds[k])
+        elif r < 0.49:
+            hist.append(['fields', rng.randrange(len(entries))])
+        elif r < 0.63:
+            hist.append(['mnem', rng.randrange(len(entries))])
+        elif r < 0.78 or not decs:
+            with_bc = [i for i, k in enumerate(entries) if k in HAS_BYTECODE]
+            e = rng.choice(with_bc) if with_bc and rng.random() < 0.9 else rng.randrange(len(entries))
+            hist.append(['decoder', e])
+            if entries[e] in HAS_BYTECODE:
+                decs += 1
+        else:
+            hist.append([rng.choice(['redecode', 'read', 'read']), rng.randrange(decs)])
+    return hist
+
+
 def gen(ctx):
     rng = ctx.rng
     T = ctx.scale(1, 10)
     cases = []
+    # ---------------- histories on one attributes section object and the objects it hands out
+    for _ in range(500 * T):
+        fl = rng.choice(['arm', 'arm', 'riscv'])
+        sec = rand_section(rng, fl, rng.choice([1, 2, 2, 3, 3, 4]), [0, 1, 2, 2, 3], [0, 1, 2, 3, 5])
+        hist = rand_attr_hist(rng, fl, sec, rng.choice([3, 4, 6, 8, 12, 16]))
+        cases.append(('attr_hist', [fl, rng.random() < 0.5, rng.choice([32, 32, 64]), rng.choice([0, 1, 3, 16]),
+                                    rng.choice([0, 1, 5]), sec, hist]))
+    # ---------------- histories on one EHABIInfo object, its entries and decoder objects
+    for _ in range(150 * T):
+        kinds = [rng.choice(EH_KINDS + ['inline', 't0', 't12', 't12']) for _ in range(rng.randint(1, 6))]
+        img = rand_eh_image(rng, kinds)
+        cases.append(('eh_hist', img + [rand_eh_hist(rng, kinds, rng.choice([2, 3, 5, 8, 12]))]))
     # ---------------- build attributes
     shapes = []
     for fl in ('arm', 'riscv'):
@@ -400,6 +638,154 @@ def observe_attr_section(img, name, mode):
     return ['ok', out]
 
 
+class CountingIO(io.BytesIO):
+    """the file handed to the library; a call sequence that keeps reading for ever is cut off"""
+    def __init__(self, data, cap):
+        super().__init__(data)
+        self.reads, self.cap = 0, cap
+
+    def read(self, *a):
+        self.reads += 1
+        if self.reads > self.cap:
+            raise RUNAWAY()
+        return super().read(*a)
+
+
+ITER_M = ['iter_subsections', 'iter_subsubsections', 'iter_attributes']
+NUM_P = ['num_subsections', 'num_subsubsections', 'num_attributes']
+LIST_P = ['subsections', 'subsubsections', 'attributes']
+DROPPED = object()
+
+
+def observe_attr_hist(img, name, hist):
+    """the call sequence [hist] on ONE section object (object #0) and the objects it hands out"""
+    from elftools.elf.elffile import ELFFile
+    from elftools.elf.sections import AttributesSection, AttributesSubsection, AttributesSubsubsection
+    stream = CountingIO(bytes(img), 200 * len(img) + 5000)
+    sec = ELFFile(stream).get_section_by_name(name)
+    objs, gens, out = [sec], [], []
+
+    def level(x):
+        return 0 if isinstance(x, AttributesSection) else 1 if isinstance(x, AttributesSubsection) else 2
+
+    def see(x):
+        """what is seen of a yielded thing; objects get the next number"""
+        if isinstance(x, AttributesSubsection):
+            objs.append(x)
+            return ['subsec', x['length'], x['vendor_name'].encode('utf-8')]
+        if isinstance(x, AttributesSubsubsection):
+            objs.append(x)
+            return ['subsub', canon_attr(x.header)]
+        return ['attr', canon_attr(x)]
+
+    def flt(f):
+        return None if f is None or f == 'none' else f.decode('utf-8')
+
+    def step(op):
+        k = op[0]
+        if k == 'disturb':
+            stream.seek(op[1])
+            return ['unit']
+        if k in ('start', 'num', 'list', 'iter'):
+            if not 0 <= op[1] < len(objs):
+                return ['bad']
+            o = objs[op[1]]
+            lvl = level(o)
+            if k == 'start':
+                gens.append(getattr(o, ITER_M[lvl])(flt(op[2])))
+                return ['unit']
+            if k == 'num':
+                return ['int', getattr(o, NUM_P[lvl])]
+            xs = getattr(o, LIST_P[lvl]) if k == 'list' else list(getattr(o, ITER_M[lvl])(flt(op[2])))
+            first = len(objs)
+            return ['items', first, [see(x) for x in xs]]
+        if not 0 <= op[1] < len(gens):
+            return ['bad']
+        g = gens[op[1]]
+        if k == 'next':
+            if g is DROPPED:
+                return ['stop']
+            try:
+                x = next(g)
+            except StopIteration:
+                return ['stop']
+            n = len(objs)
+            v = see(x)
+            return ['item', n if len(objs) > n else None, v]
+        if k == 'close':
+            if g is not DROPPED:
+                g.close()
+            return ['unit']
+        if k == 'drop':             # the last reference goes away (as when a for loop is left by break)
+            gens[op[1]] = DROPPED
+            del g
+            gc.collect()
+            return ['unit']
+        raise ValueError(k)
+    for op in hist:
+        out.append(impl_call(step, op))
+    return ['ok', out]
+
+
+def observe_eh_hist(img, hist):
+    """the call sequence [hist] on ONE EHABIInfo object, the entries and the decoder objects it leads to"""
+    from elftools.elf.elffile import ELFFile
+    from elftools.ehabi.decoder import EHABIBytecodeDecoder
+    info = ELFFile(io.BytesIO(bytes(img))).get_ehabi_infos()[0]
+    entries, decs, out = [], [], []
+
+    def fields(e):
+        bc = e.bytecode_array
+        return ['entry', [e.function_offset, e.personality, None if bc is None else bytes(bc), e.eh_table_offset,
+                          bool(e.unwindable), bool(e.corrupt), None]]
+
+    def items(mn):
+        return ['mnem', None if mn is None else [[bytes(m.bytecode), m.mnemonic] for m in mn]]
+
+    def step(op):
+        k = op[0]
+        if k == 'num':
+            return ['int', info.num_entry()]
+        if k == 'get':
+            e = info.get_entry(op[1])
+            entries.append(e)
+            return fields(e)
+        if k in ('fields', 'mnem', 'decoder'):
+            if not 0 <= op[1] < len(entries):
+                return ['bad']
+            e = entries[op[1]]
+            if k == 'fields':
+                return fields(e)
+            if k == 'mnem':
+                return items(e.mnmemonic_array())
+            if e.bytecode_array is None:
+                return ['bad']
+            d = EHABIBytecodeDecoder(e.bytecode_array)
+            decs.append(d)
+            return items(d.mnemonic_array)
+        if not 0 <= op[1] < len(decs):
+            return ['bad']
+        d = decs[op[1]]
+        if k == 'redecode':
+            d._decode()
+        return items(d.mnemonic_array)
+    for op in hist:
+        out.append(impl_call(step, op))
+    return out
+
+
+def first_diff(a, b):
+    """index of the first answer in which two history results differ (None: the results as a whole differ)"""
+    if isinstance(a, list) and isinstance(b, list) and len(a) == 2 and len(b) == 2 and a[0] == b[0] == 'ok':
+        a, b = a[1], b[1]
+    if not (isinstance(a, list) and isinstance(b, list)) or (a and a[0] == 'err') or (b and b[0] == 'err'):
+        return None
+    for i, (x, y) in enumerate(zip(a, b)):
+        if x != y:
+            return i
+    return None
+
+
 def observe_eh(img, n):
     from elftools.elf.elffile import ELFFile
     elf = ELFFile(io.BytesIO(bytes(img)))
@@ -445,6 +831,17 @@ def evaluate(ctx, cases):
             reqs.append(['attr_enc', a[0], a[1], a[6]])
             reqs.append(['attr_wf', a[0], a[6]])
             reqs.append(['attr_expected', a[0], a[6]])
+        elif kind == 'attr_hist':
+            reqs.append(['attr_enc', a[0], a[1], a[5]])
+            reqs.append(['attr_wf', a[0], a[5]])
+            reqs.append(['attr_hist_spec', a[0], a[5], a[6]])
+        elif kind == 'eh_hist':
+            le, exidx_off, ents = a[0], a[1], a[2]
+            for i, ent in enumerate(ents):
+                reqs.append(['eh_enc', le, exidx_off + 8 * i, ent])
+                reqs.append(['eh_wf', exidx_off + 8 * i, ent])
+                reqs.append(['eh_expected', exidx_off + 8 * i, ent])
+            reqs.append(['eh_hist_spec', exidx_off, ents, a[4]])
         elif kind == 'eh':
             le, exidx_off, ents = a[0], a[1], a[2]
             for i, ent in enumerate(ents):
@@ -484,6 +881,23 @@ def evaluate(ctx, cases):
                 struct.pack_into(e + 'I', img, shoff + 40 + 20, sh_size)
             w = dict(img=img, name=name, wf=bool(wf), exp=exp, mode=a[5], shape=attr_shape(a[6]))
             reqs2.append(['attr_model', a[0], a[1], bytes(img), off, sh_size])
+        elif kind == 'attr_hist':
+            body, wf, exp = next(ans), next(ans), next(ans)
+            img, name, off = attr_image(a, bytes(body))
+            w = dict(img=img, name=name, wf=bool(wf), exp=exp, shape=attr_shape(a[5]))
+            reqs2.append(['attr_hist_model', a[0], a[1], bytes(img), off, len(body), a[6]])
+        elif kind == 'eh_hist':
+            le, exidx_off, ents, total, hist = a
+            per = [(next(ans), next(ans), next(ans)) for _ in ents]
+            exp = next(ans)
+            size = 8 * len(ents)
+            img = build_elf(le, 32, 40, [('.ARM.exidx', 0x70000001, exidx_off, size)], total)
+            for i, ((idx, tbl, tab), _, _) in enumerate(per):
+                img[exidx_off + 8 * i: exidx_off + 8 * i + 8] = idx
+                if tab:
+                    img[tbl:tbl + len(tab)] = tab
+            w = dict(img=img, wf=all(bool(x[1]) for x in per), exp=exp, tblspec=[bool(x[2][1]) for x in per])
+            reqs2.append(['eh_hist_model', bytes(img), le, exidx_off, size, hist])
         elif kind == 'eh':
             le, exidx_off, ents, total, n = a
             encs = [next(ans) for _ in ents]
@@ -537,6 +951,59 @@ def evaluate(ctx, cases):
             else:
                 ctx.bump('attr_mut_outcome', impl[0] if impl[0] == 'ok' else impl[1])
                 ctx.record(kind, a, impl=impl, spec=m, model=m, in_domain=False, nontrivial=True)
+        elif kind == 'attr_hist':
+            impl = impl_call(observe_attr_hist, w['img'], w['name'], a[6])
+            if isinstance(impl, list) and impl and impl[0] == 'ok':
+                impl = ['ok', [norm_err(x) for x in impl[1]]]
+            if isinstance(m, list) and m and m[0] == 'ok':
+                m = ['ok', [norm_err(x) for x in m[1]]]
+            from tools.lib import sx as _sx
+            ci, cs = _sx.canon(impl), _sx.canon(w['exp'])
+            d = first_diff(ci, cs)
+            key = 'attr-hist/' + (a[6][d][0] if d is not None else 'whole')
+            nsub, nss = w['shape']
+            ctx.bump('attr_hist_len', min(len(a[6]), 16))
+            ctx.bump('attr_hist_subsections', min(nsub, 6))
+            for op in a[6]:
+                ctx.bump('attr_hist_ops', op[0])
+            if ci[0] == 'ok':
+                ctx.bump('attr_hist_dangling_refs', sum(1 for x in cs[1] if x == ['bad']))
+            ctx.record(kind, a, impl=impl, spec=w['exp'], model=m, in_domain=w['wf'], nontrivial=len(a[6]) >= 2, key=key)
+        elif kind == 'eh_hist':
+            impl = impl_call(observe_eh_hist, w['img'], a[4])
+            # which index entry an `entry` answer is about: get n registers entry objects in order
+            nent, reg, about = len(a[2]), [], []
+            for op in a[4]:
+                if op[0] == 'get' and 0 <= op[1] < nent:
+                    reg.append(op[1])
+                    about.append(op[1])
+                elif op[0] == 'fields' and 0 <= op[1] < len(reg):
+                    about.append(reg[op[1]])
+                else:
+                    about.append(None)
+
+            def erase(r):
+                """eh_table_offset is left open by the specification for some entry kinds"""
+                if not isinstance(r, list) or (r and r[0] == 'err'):
+                    return r
+                out = []
+                for x, n in zip(r, about):
+                    if isinstance(x, list) and x and x[0] == 'entry' and n is not None and not w['tblspec'][n]:
+                        x = ['entry', list(x[1])]
+                        x[1][3] = 'unspecified'
+                    out.append(x)
+                return out
+            from tools.lib import sx as _sx
+            impl, spec, m = erase(_sx.canon(impl)), erase(_sx.canon(w['exp'])), erase(_sx.canon(m))
+            truncated = any(x == ['err', 'truncated'] for x in spec)
+            d = first_diff(impl, spec)
+            key = 'eh-hist/' + (a[4][d][0] if d is not None else 'whole')
+            ctx.bump('eh_hist_len', min(len(a[4]), 12))
+            for op in a[4]:
+                ctx.bump('eh_hist_ops', op[0])
+            ctx.bump('eh_hist_dangling_refs', sum(1 for x in spec if x == ['bad']))
+            ctx.record(kind, a, impl=impl, spec=spec, model=m, in_domain=w['wf'] and not truncated,
+                       nontrivial=len(a[4]) >= 2, key=key)
         elif kind == 'eh':
             impl = norm_err(impl_call(observe_eh, w['img'], w['n']))
             spec = w['exp'] if w['exp'] is not None else m
